@@ -4,7 +4,7 @@ instance handed in (seeded from VERIF_SEED), so a run replays exactly.
 """
 import math
 
-SHAPES = ['zeros', 'const', 'ramp', 'alt', 'noise', 'lownoise', 'wasted', 'poly', 'sine', 'edge', 'steps']
+SHAPES = ['zeros', 'const', 'ramp', 'alt', 'noise', 'lownoise', 'wasted', 'poly', 'sine', 'edge', 'steps', 'sticky1w']
 
 def clamp(v, bps):
     lo, hi = -(1 << (bps - 1)), (1 << (bps - 1)) - 1
@@ -44,6 +44,23 @@ def pcm_shape(rng, shape, n, bps):
         return [clamp(int(amp * math.sin(i * f)), bps) for i in range(n)]
     if shape == 'edge':
         return [rng.choice([lo, hi, lo + 1, hi - 1, 0, -1, 1]) for _ in range(n)]
+    if shape == 'period32':
+        # one 32-sample pattern repeated with a few LSB of noise: a 32-tap predictor (the last sample of the previous period) beats every
+        # shorter one, so an encoder allowed the maximal LPC order picks it
+        amp = max(4, hi // 3)
+        pat = [rng.randint(-amp, amp) for _ in range(32)]
+        return [clamp(pat[i % 32] + rng.randint(-3, 3), bps) for i in range(n)]
+    if shape == 'sticky1w':
+        # the two even extremes of the depth (exactly one wasted bit), changing a little under half the time: after the shift the
+        # first difference is mostly 0 and sometimes twice full scale - a distribution the mean-based Rice estimate codes at
+        # more than the sample width
+        a, b = hi - 1, lo
+        out = []; v = rng.choice([a, b])
+        for i in range(n):
+            if rng.random() < 0.45:
+                v = a if v == b else b
+            out.append(v)
+        return out
     if shape == 'steps':
         out = []; v = rng.randint(lo // 4, hi // 4)
         for i in range(n):
